@@ -251,3 +251,117 @@ Proof. intros H. unfold decide, get_uri. now rewrite H. Qed.
 Theorem decide_uri_error_raised regs native oidc u :
   verify_uri regs native oidc u = Err uri_error -> decide regs native oidc (Some u) = Raised uri_error.
 Proof. intros H. unfold decide, get_uri. now rewrite H. Qed.
+
+(* ------------------------------------------------------------------ the parsed components are the pieces of the text *)
+(* For a string urlsplit does not have to repair (ASCII, no leading control character or space, no TAB / CR / LF)
+   nothing is lost: the string is the concatenation of its components and the delimiters. *)
+Definition clean (d : pystr) : bool :=
+  is_ascii d && match d with c :: _ => negb (c <=? 32) | [] => true end
+  && forallb (fun c => negb ((c =? 9) || (c =? 10) || (c =? 13))) d.
+
+Lemma split1_c_eq sep s a b : split1_c sep s = Some (a, b) -> s = a ++ sep :: b.
+Proof.
+  revert a b. induction s as [|c r IH]; intros a b H; cbn in H; [discriminate|].
+  destruct (c =? sep) eqn:E.
+  - inversion H; subst. apply N.eqb_eq in E. now subst.
+  - destruct (split1_c sep r) as [[a' b']|]; [|discriminate]. inversion H; subst. cbn. f_equal. now apply IH.
+Qed.
+Lemma rsplit1_c_eq sep s a b : rsplit1_c sep s = Some (a, b) -> s = a ++ sep :: b.
+Proof.
+  unfold rsplit1_c. destruct (split1_c sep (List.rev s)) as [[x y]|] eqn:E; [|discriminate].
+  intros H. inversion H; subst. apply split1_c_eq in E.
+  apply (f_equal (@List.rev N)) in E. rewrite rev_involutive in E. rewrite E.
+  rewrite rev_app_distr. cbn. now rewrite <- app_assoc.
+Qed.
+Lemma span_netloc_eq s a b : span_netloc s = (a, b) -> s = a ++ b.
+Proof.
+  revert a b. induction s as [|c r IH]; intros a b H; cbn in H.
+  - now inversion H.
+  - destruct ((c =? 47) || (c =? 63) || (c =? 35)); [now inversion H|].
+    destruct (span_netloc r) as [a' b'] eqn:E. inversion H; subst. cbn. f_equal. now apply IH.
+Qed.
+Lemma filter_id {A} (f : A -> bool) l : forallb f l = true -> filter f l = l.
+Proof.
+  induction l as [|x l IH]; [reflexivity|]. cbn. intros H. apply andb_true_iff in H as [Hx Hl].
+  rewrite Hx. f_equal. now apply IH.
+Qed.
+Lemma clean_untouched d : clean d = true -> remove_unsafe (lstrip_c0 d) = d /\ is_ascii d = true.
+Proof.
+  unfold clean. intros H. apply andb_true_iff in H as [H H3]. apply andb_true_iff in H as [H1 H2].
+  split; [|exact H1].
+  assert (L : lstrip_c0 d = d).
+  { destruct d as [|c r]; [reflexivity|]. cbn. apply negb_true_iff in H2. now rewrite H2. }
+  rewrite L. unfold remove_unsafe. now apply filter_id.
+Qed.
+
+Lemma double_slash_cases (rest : pystr) (A : Type) (f : pystr -> A) (dflt : A) :
+  (exists r, rest = 47 :: 47 :: r /\ (match rest with 47 :: 47 :: r => f r | _ => dflt end) = f r)
+  \/ (match rest with 47 :: 47 :: r => f r | _ => dflt end) = dflt.
+Proof.
+  destruct rest as [|c1 t]; [right; reflexivity|].
+  destruct (N.eq_dec c1 47) as [->|N1].
+  2: { right. destruct c1 as [|q]; [reflexivity|].
+       do 6 (destruct q as [q|q|]; try reflexivity). congruence. }
+  destruct t as [|c2 r]; [right; reflexivity|].
+  destruct (N.eq_dec c2 47) as [->|N2]; [left; eauto|].
+  right. destruct c2 as [|q]; [reflexivity|].
+  do 6 (destruct q as [q|q|]; try reflexivity). congruence.
+Qed.
+
+Theorem urlsplit_pieces d p : clean d = true -> urlsplit d = Ok p ->
+  exists S rest rest2 rest3,
+    ((scheme p = [] /\ rest = d) \/ (scheme p = lower S /\ d = S ++ 58 :: rest)) /\
+    ((netloc p = [] /\ rest2 = rest) \/ rest = 47 :: 47 :: netloc p ++ rest2) /\
+    ((fragment p = [] /\ rest3 = rest2) \/ rest2 = rest3 ++ 35 :: fragment p) /\
+    ((query p = [] /\ path p = rest3) \/ rest3 = path p ++ 63 :: query p) /\
+    params p = [].
+Proof.
+  intros Hc H. destruct (clean_untouched d Hc) as [Hu Ha].
+  unfold urlsplit in H. rewrite Ha, Hu in H. cbn [negb] in H.
+  destruct (split_scheme d) as [sch rest] eqn:Es.
+  destruct (match rest with 47 :: 47 :: r => span_netloc r | _ => ([], rest) end) as [nl rest2] eqn:En.
+  apply bind_ok in H as [[] [_ H]].
+  destruct (match split1_c 35 rest2 with Some (a, b) => (a, b) | None => (rest2, []) end) as [rest3 frag] eqn:Ef.
+  destruct (match split1_c 63 rest3 with Some (a, b) => (a, b) | None => (rest3, []) end) as [pth qry] eqn:Eq.
+  inversion H; subst p. cbn [scheme netloc path params query fragment].
+  assert (Hs : (sch = [] /\ rest = d) \/ exists S, sch = lower S /\ d = S ++ 58 :: rest).
+  { unfold split_scheme in Es. destruct (split1_c 58 d) as [[a b]|] eqn:E1.
+    - destruct a as [|c a].
+      + inversion Es; auto.
+      + destruct (is_alpha c && forallb scheme_char (c :: a)); inversion Es; subst; auto.
+        right. exists (c :: a). split; [reflexivity|]. now apply split1_c_eq.
+    - inversion Es; auto. }
+  assert (Hn : (nl = [] /\ rest2 = rest) \/ rest = 47 :: 47 :: nl ++ rest2).
+  { destruct (double_slash_cases rest _ span_netloc ([], rest)) as [[r [Hr E]]|E].
+    - right. assert (E2 : span_netloc r = (nl, rest2)) by (rewrite <- En; symmetry; exact E).
+      apply span_netloc_eq in E2. now rewrite Hr, E2.
+    - left. assert (E2 : (nl, rest2) = ([], rest)) by (rewrite <- En; exact E). inversion E2; auto. }
+  assert (Hf : (frag = [] /\ rest3 = rest2) \/ rest2 = rest3 ++ 35 :: frag).
+  { destruct (split1_c 35 rest2) as [[a b]|] eqn:E1; inversion Ef; subst; auto. right. now apply split1_c_eq. }
+  assert (Hq : (qry = [] /\ pth = rest3) \/ rest3 = pth ++ 63 :: qry).
+  { destruct (split1_c 63 rest3) as [[a b]|] eqn:E1; inversion Eq; subst; auto. right. now apply split1_c_eq. }
+  destruct Hs as [[-> ->]|[S [-> ->]]].
+  - exists [], d, rest2, rest3. repeat split; auto.
+  - exists S, rest, rest2, rest3. repeat split; auto.
+Qed.
+
+Theorem urlparse_pieces d p : clean d = true -> urlparse d = Ok p ->
+  exists ps, urlsplit d = Ok ps /\ scheme p = scheme ps /\ netloc p = netloc ps /\ query p = query ps /\
+             fragment p = fragment ps /\
+             ((params p = [] /\ path p = path ps) \/ path ps = path p ++ 59 :: params p).
+Proof.
+  intros Hc H. unfold urlparse in H. apply bind_ok in H as [ps [Hps H]].
+  exists ps. split; [exact Hps|].
+  destruct (urlsplit_pieces d ps Hc Hps) as (_ & _ & _ & _ & _ & _ & _ & _ & Hpar).
+  destruct (str_in (scheme ps) uses_params && has_c 59 (path ps)).
+  - destruct (splitparams (path ps)) as [u prm] eqn:E. inversion H; subst p. cbn.
+    repeat split; auto. unfold splitparams in E.
+    destruct (rsplit1_c 47 (path ps)) as [[pre seg]|] eqn:E1.
+    + apply rsplit1_c_eq in E1. destruct (split1_c 59 seg) as [[a b]|] eqn:E2.
+      * inversion E; subst. apply split1_c_eq in E2. right. rewrite E1, E2. now rewrite <- app_assoc.
+      * inversion E; subst. left. auto.
+    + destruct (split1_c 59 (path ps)) as [[a b]|] eqn:E2.
+      * inversion E; subst. right. now apply split1_c_eq.
+      * inversion E; subst. left; auto.
+  - inversion H; subst p. repeat split; auto.
+Qed.
